@@ -6,7 +6,7 @@ import math
 
 import numpy as np
 
-from ..core import CaseResult
+from ..core import CaseResult, variants
 
 PROP = "C11"
 LEVEL = "model_checking"
@@ -186,6 +186,20 @@ def check_case(case):
                     b = det.detyz_to_xy(q, *o, dety_size=ny, detz_size=nx)
                     r.require(float(b[0]) == x and float(b[1]) == y, k2 + ":detyz_to_xy:call%d" % rep, "detyz_to_xy on a %s argument (call %d with the same object)" % (kn, rep), [x, y], [float(b[0]), float(b[1])])
                 r.require(bool(np.array_equal(np.array(q, float), qsnap)), k2 + ":detyz-arg-unchanged", "detyz_to_xy leaves its argument as it was")
+        # argument kinds x call forms: the image in every memory layout / dtype (detector frames are often transposed or Fortran-ordered
+        # views), the four orientation entries as ints / numpy ints / floats, sizes likewise, flipdir by keyword; positional and by name
+        if k == "small" and (nx, ny) in ((2, 3), (3, 2), (4, 4), (1, 5), (5, 8)):
+            for fn_ in (det.trans_orientation, det.image_flipping):
+                for mode in ("forward", "inverse"):
+                    src = img if mode == "forward" else np.asarray(fn_(img, *o))
+                    a = [src.astype(float), o[0], o[1], o[2], o[3], mode]
+                    for pos in range(5):
+                        variants(r, "%s:%s(%s)" % (tag, fn_.__name__, mode), fn_, a, pos, 0.0, 0.0)
+            x, y = pix[len(pix) // 2]
+            for fn_ in (det.xy_to_detyz, det.detyz_to_xy):
+                a = [[float(x), float(y)], o[0], o[1], o[2], o[3], ny, nx]
+                for pos in range(7):
+                    variants(r, "%s:%s(px%d,%d)" % (tag, fn_.__name__, x, y), fn_, a, pos, 0.0, 1e-6)
         r.states = len(pix)
         r.transitions = 4 * len(pix)
         if nx != ny or o != (1, 0, 0, 1):
@@ -237,6 +251,13 @@ def check_case(case):
                 q2 = det.eta_and_radpix_to_detyz(e, rp, c[0], c[1])
                 r.check("pix-rt", float(np.max(np.abs(np.array(q2, float) - q))), 1e-6 * (abs(c[0]) + abs(c[1]) + rp), key + ":rt", "pixel restored", q, q2)
                 n += 1
+        for eta, rad in ((30.0, 10.0), (255.0, 1400.25)):
+            a = [eta, rad, c[0], c[1]]
+            for pos in range(4):
+                variants(r, "eta:c=%s:eta_and_radpix_to_detyz(%g,%g)" % (c, eta, rad), det.eta_and_radpix_to_detyz, a, pos, 1e-12, 1e-4)
+            q = [c[0] + 3.0, c[1] - 2.0]
+            for pos in range(3):
+                variants(r, "eta:c=%s:detyz_to_eta_and_radpix" % (c,), det.detyz_to_eta_and_radpix, [q, c[0], c[1]], pos, 1e-9, 1e-3)
         r.states = len(etas) * len(rads) + n
         r.transitions = 2 * r.states
         return r
